@@ -4,9 +4,9 @@ CONSTANTS
   ActiveThreshold = 5
   GroupThreshold = 4
   ClientQuorum = 5
-  MemberLists <- Lists
-  Envs <- SomeEnvs
+  MemberLists <- ListsSmall
+  Envs <- OneEnv
   AdvKinds <- AllAdv
-  MaxAdversarial = 2
+  MaxAdversarial = 1
   StrictVerify = TRUE
 INVARIANTS TypeOK StaticRulesHold MembersHashMatches SignaturesRecover GroupMembersMatch ValidWheneverSubmitted GateImpliesThresholds NoSubmissionBelowQuorum OwnSignatureIncluded WalletMatches HonestAccepted
